@@ -97,6 +97,8 @@ type relay struct {
 	// output stores stream output that is ready to be sent over HTTP/2. It provides a way to
 	// guarantee frame order without blocking on each frame being sent.
 	output chan queuedFrame
+	// writerDone is closed when the goroutine that writes `output` to `dest` has finished.
+	writerDone chan struct{}
 
 	enableDebugLogs *bool
 
@@ -129,6 +131,7 @@ func newRelay(
 		connectionWindowSize: defaultInitialWindowSize,
 		outputBuffers:        make(map[uint32]*outputBuffer),
 		output:               make(chan queuedFrame, outputChannelSize),
+		writerDone:           make(chan struct{}),
 		enableDebugLogs:      enableDebugLogs,
 	}
 	ret.encoder = hpack.NewEncoder(&ret.reencoded)
@@ -142,43 +145,54 @@ func newRelay(
 }
 
 // relayFrames reads frames from `f.src` to `f.dest` until an error occurs or the connection closes.
-func (r *relay) relayFrames(closing chan bool) error {
+// Frames are written to `f.dest` until `stop` is closed.
+func (r *relay) relayFrames(closing chan bool, stop chan struct{}) error {
 	// Shutting down producer-consumers linked by channels is subtle. In this function, the writer
-	// goroutine consumes frames from `r.output`, which are populated by the reader goroutine. If
-	// the writer shuts down before the reader, the reader may deadlock on inserting frames into
-	// `r.output`. The writer therefore has to keep processing until the reader is done. This is
-	// coordinated via `readerDone`.
+	// goroutine consumes frames from `r.output`, which are populated by the reader goroutine and,
+	// when the receiver opens its windows, by the reader goroutine of the peer relay. If the writer
+	// shuts down before both of them, they may deadlock on inserting frames into `r.output`, and
+	// frames the sender emitted before it closed its connection would never be delivered. The
+	// writer therefore has to keep processing until both readers are done. This is coordinated
+	// via `stop`.
 	//
 	// A second subtlely is that errors on the writer goroutine should stop the reader goroutine.
 	// This is communicated via `writeErr`. To avoid deadlocks, even after the error occurs, the
-	// writer thread must still wait until `readerDone` has been communicated to stop processing.
-
-	// Communicates to the consuming writer goroutine that the reader (the calling goroutine of this
-	// method) is done.
-	readerDone := make(chan struct{})
-	defer func() { readerDone <- struct{}{} }()
+	// writer thread must still wait until `stop` has been communicated to stop processing.
 
 	// Communicates errors occurring on the writer goroutine to the reader goroutine.
 	writerErr := make(chan error, 1)
 
 	// This writer goroutine consumes the strictly ordered frames in `r.output` and delivers them.
 	go func() {
+		defer close(r.writerDone)
+
 		var err error
+		send := func(f queuedFrame) {
+			if err == nil {
+				r.destMu.Lock()
+				err = f.send(r.dest)
+				r.destMu.Unlock()
+				if err != nil {
+					writerErr <- err
+				}
+			}
+			// Once an output error has occurred, the remaining frames are drained from the channel
+			// without sending them.
+		}
 		for {
 			select {
 			case f := <-r.output:
-				if err == nil {
-					r.destMu.Lock()
-					err = f.send(r.dest)
-					r.destMu.Unlock()
-					if err != nil {
-						writerErr <- err
+				send(f)
+			case <-stop:
+				// Nothing is queued any more: deliver what is left.
+				for {
+					select {
+					case f := <-r.output:
+						send(f)
+					default:
+						return
 					}
 				}
-				// Once an output error has occurred, the remaining frames are drained from the channel
-				// without sending them.
-			case <-readerDone:
-				return
 			}
 		}
 	}()
